@@ -1,6 +1,7 @@
 use crate::runner::{run_prop, Opts};
 
 pub mod c18;
+pub mod c19;
 pub mod c20;
 pub mod hostile;
 pub mod c02;
@@ -39,6 +40,7 @@ pub fn dispatch(id: &str, opts: &mut Opts) -> i32 {
         "C16" => run_prop(&c16::C16, opts),
         "C17" => run_prop(&c17::C17, opts),
         "C18" => run_prop(&c18::C18, opts),
+        "C19" => run_prop(&c19::C19, opts),
         "C20" => run_prop(&c20::C20, opts),
         _ => {
             eprintln!("unknown property id {id}");
